@@ -113,6 +113,11 @@ CFGS = {
                            "lower": {"cosmo": {"ok": -0.3}, "lens": {"lambda_mst": 0.5}},
                            "upper": {"cosmo": {"ok": 0.3}, "lens": {"lambda_mst": 1.5}},
                            "fixed": {"cosmo": {"h0": 70.0, "om": 0.3}}, "center": [0.0, 1.0], "width": [0.05, 0.05]},
+    # the curved model with a box that CONTAINS points of zero probability (om + ok >= 1: no dark energy left — the model's
+    # own guard returns -inf inside the box): walkers started there are stored and returned like any other sample
+    "olcdm2_guard": {"cosmology": "oLCDM", "lenses": 2, "model": {},
+                     "lower": {"cosmo": {"om": 0.05, "ok": -0.5}}, "upper": {"cosmo": {"om": 1.0, "ok": 0.5}},
+                     "fixed": {"cosmo": {"h0": 70.0}}, "center": [0.62, 0.33], "width": [0.06, 0.06]},
     # two parameters of the same block with DIFFERENT boxes and start points: names, bounds and start vectors must line up
     "flcdm_ab": {"cosmology": "FLCDM", "lenses": 2,
                  "model": {"lambda_mst_sampling": True, "alpha_lambda_sampling": True, "beta_lambda_sampling": True},
@@ -718,6 +723,11 @@ def fixed_histories(rng):
         out.append((nm, {"backend": "mem", "ops": [mk_op(False, 8 if nm != "flcdm_ab" else 10, 1, 2, CFGS[nm]["center"], CFGS[nm]["width"], 71)]}))
     # continue with another walker count than the store (documented misuse, model/impl error class only)
     out.append(("flcdm2", {"backend": "mem", "ops": [mk_op(False, 8, 0, 2, m, sg, 61), mk_op(True, 10, 0, 2, m, sg, 62)]}))
+    # walkers that sit at zero probability INSIDE the box (no burn-in, a few steps): n_walkers * n_run samples all the same
+    g = CFGS["olcdm2_guard"]
+    for bk in ("mem", "hdf"):
+        out.append(("olcdm2_guard", {"backend": bk, "ops": [mk_op(False, 12, 0, 3, g["center"], g["width"], 95),
+                                                           mk_op(True, 12, 0, 2, g["center"], g["width"], 96)]}))
     return out
 
 
@@ -947,7 +957,7 @@ def run(ctx, res):
                     if v is not None and len(xs) < 4000:
                         xs.append(x.tolist())
                         vs.append(v)
-        gate_cases.append(({"op": "C15.gate", "lo": fl(lo), "hi": fl(hi), "xs": fll(xs)}, vs, name))
+        gate_cases.append(({"op": "C15.gate", "lo": fl(lo), "hi": fl(hi), "xs": fll(xs), "xs_float": [list(map(float, x)) for x in xs]}, vs, name))
     outs = run_driver(dcases + [g[0] for g in gate_cases])
     for (name, hist, obs), probs, out in zip(cases, pre, outs):
         res.traces += 1
@@ -961,7 +971,19 @@ def run(ctx, res):
             res.disagree("gate driver error %s" % out["err"], {"cfg": name})
             continue
         ins = out["ok"]["inside"]
-        bad = [i for i, (a, v) in enumerate(zip(ins, vs)) if a != (v != -np.inf)]
+        # outside the box: -inf, always.  Inside: a real number — except where the curved model's own guard applies (no dark
+        # energy left or E(z)^2 <= 0 up to the highest source redshift; stated independently in c02.physical)
+        def guard_applies(x):
+            c = cfg_of(name)
+            if c["cosmology"] != "oLCDM":
+                return False
+            from harness.props import c02
+            vals = dict(c["fixed"].get("cosmo", {}))
+            vals.update({k: v for k, v in zip(build_sampler(name).param_names(), x)})
+            ztop = max(l["z_source"] for l in LENSES[:c["lenses"]])
+            return not c02.physical(vals.get("om", 0.3), vals.get("ok", 0.0), ztop)
+        bad = [i for i, (a, v) in enumerate(zip(ins, vs))
+               if (not a and v != -np.inf) or (a and v == -np.inf and not guard_applies(case["xs_float"][i]))]
         res.count("gate_calls", len(vs))
         res.count("gate_calls_outside", sum(1 for a in ins if not a))
         if bad:
